@@ -24,6 +24,10 @@ for name in sorted(os.listdir(os.path.join(ROOT, 'seeded'))):
         base = meta['confirmed']['repo_commit']
         meta['apply_on'] = base
         meta['apply_note'] = 'no longer applies on the current tree: a later fix: commit rewrote the code it changes; run against its base commit'
+    if meta.get('run_on'):
+        # the change is behaviour-preserving on the current tree (a later fix: commit made the code it relies on redundant):
+        # it is run on the last commit on which it breaks the property
+        base = meta['run_on']
     already = set()
     if base != head:
         env['MUT_BASE'] = base
